@@ -27,6 +27,7 @@ import (
 	"github.com/olric-data/olric/internal/protocol"
 	"github.com/olric-data/olric/internal/resp"
 	"github.com/olric-data/olric/internal/stats"
+	"github.com/olric-data/olric/internal/verifhook"
 	"github.com/olric-data/olric/pkg/storage"
 	"github.com/redis/go-redis/v9"
 )
@@ -181,6 +182,9 @@ func (dm *DMap) syncPutOnCluster(e *env, nt storage.Entry) error {
 		return err
 	}
 	successful := 1
+	if err := verifhook.Fire("put.local", dm.s.rt.This().String(), e.hkey); err != nil {
+		return err
+	}
 
 	encodedEntry := nt.Encode()
 
@@ -201,6 +205,9 @@ func (dm *DMap) syncPutOnCluster(e *env, nt storage.Entry) error {
 			continue
 		}
 		successful++
+		if err := verifhook.Fire("put.backup", dm.s.rt.This().String(), e.hkey); err != nil {
+			return err
+		}
 	}
 	if successful >= dm.s.config.WriteQuorum {
 		return nil
